@@ -64,6 +64,27 @@ def gen_case(rng, idx, tier):
         else:
             dimB = dimA
         B = second_curve(rng, A, relation, q, dimB, rng.random() < 0.3, positive=(op == "div"))
+        # coincidences between the operands: same weights on another knot vector, the very same data
+        co = rng.random()
+        if co < 0.12 and A["W"] is not None:
+            n = len(A["P"])
+            a_, b_ = A["U"][0], A["U"][-1]
+            q2 = rng.choice([x for x in range(0, 4) if n - x - 1 >= 0])
+            tot = n - q2 - 1
+            ks2, ms2 = [], []
+            while tot > 0:
+                m_ = rng.randint(1, min(tot, q2 + 1))
+                ms2.append(m_)
+                tot -= m_
+            ks2 = gen.interior_values(rng, a_, b_, len(ms2), grid=60)
+            V2 = gen.kv_from(a_, b_, q2, ks2, ms2)
+            if len(V2) - q2 - 1 == n and V2 != A["U"]:
+                P2 = [F(rng.randint(1, 9), rng.choice([1, 2, 3])) for _ in range(n)] if op == "div" else gen.points(rng, n, dimB)
+                B = {"U": V2, "P": P2, "W": list(A["W"])}
+                relation = "sameweights"
+        elif co < 0.2 and op != "matmul" and (op != "div" or dimA == 0) and (op != "mul" or dimA == 0):
+            B = {"U": list(A["U"]), "P": [F(abs(x) + 1) for x in A["P"]] if op == "div" and dimA == 0 else list(A["P"]), "W": None if A["W"] is None else list(A["W"])}
+            relation = "samedata"
         if op == "mul" and rng.random() < 0.5:
             A, B = B, A
         if rng.random() < 0.06:
